@@ -855,8 +855,13 @@ class Engine:
                     if par["m"].get("is_field"):
                         return ("sub", par)
                     # bound member function: the call decides
-                    cur = par
-                    continue
+                    call = f.par(par)
+                    while call is not None and call["k"] in ("ParenExpr", "ImplicitCastExpr"):
+                        call = f.par(call)
+                    if call is not None and call["k"] == "CXXMemberCallExpr":
+                        c = call.get("callee") or {}
+                        return ("call-const" if c.get("constm") else "call", call)
+                    return ("call", par)
             if k == "CXXMemberCallExpr":
                 if par.get("obj") == cur["id"] or self._is_obj(f, par, cur):
                     c = par["callee"]
@@ -1076,3 +1081,19 @@ def mo_at_least(order, floor):
     if floor == "seq_cst":
         return order == 5
     raise ValueError(floor)
+
+
+def atomic_field_of(f, op):
+    """(owner class template, field name) of the atomic object of an atomic op, or None"""
+    st = op["st"]
+    if st["k"] == "CXXMemberCallExpr":
+        o = f.s(st["obj"])
+    else:
+        o = f.s(st["args"][0])
+    o = unwrap(f, o)
+    # *ptr / ptr-> forms
+    while o is not None and o["k"] == "UnaryOperator" and o["op"] in ("*", "&"):
+        o = unwrap(f, f.children(o)[0])
+    if o is not None and o["k"] == "MemberExpr" and o["m"].get("is_field"):
+        return (o["m"].get("rec"), o["m"]["name"])
+    return None
